@@ -339,6 +339,21 @@ func GenRoutes(t *rapid.T, cfg TableCfg, strict bool) []RouteDef {
 	return defs
 }
 
+// LongPrefix puts, in one case out of oneIn, every route of the table below one long first segment (130-600 bytes, as
+// inside a group with a long prefix): paths, cache keys and lookups beyond any small fixed-size limit.
+func LongPrefix(t *rapid.T, defs []RouteDef, oneIn int) bool {
+	if rapid.IntRange(1, oneIn).Draw(t, "longPrefix") != 1 {
+		return false
+	}
+	long := strings.Repeat(rapid.StringMatching(`[a-c]{10}`).Draw(t, "longUnit"), rapid.IntRange(13, 60).Draw(t, "longReps"))
+	for i := range defs {
+		if d := &defs[i]; d.P.Raw == "" {
+			d.P.Segs = append([]Part{{Pre: long}}, d.P.Segs...)
+		}
+	}
+	return true
+}
+
 // GenProbePath draws a request path for the table: constructive, near miss or random.
 // kind reports which; target is the route the path was built from (-1 for random).
 func GenProbePath(t *rapid.T, defs []RouteDef) (path, kind string, target int, vals map[string]string, k int) {
